@@ -1,7 +1,7 @@
-\* GF(2^3): every secret (8) x every coefficient tape (8^(k-1)) x both variants x every 2 <= k <= n <= 4
+\* GF(2^3): five shares: every secret x every tape x both variants x 2 <= k <= 3, n <= 5 (20 and 60 ordered k-subsets of 5)
 CONSTANTS FieldM = 3
-MaxN = 4
-MaxK = 4
+MaxN = 5
+MaxK = 3
 FlipVariant = FALSE
 INIT Init
 NEXT Next
